@@ -168,9 +168,13 @@ def evaluate(hist, variant="plain"):
     if last_total > bound:
         return E.Found("leak/total-exceeds-bound", "heap total %d after %d rounds exceeds bound %d (initial %d, peak live %d)\nrows=%r\nprogram:\n%s"
                        % (last_total, len(rounds), bound, initial_total, peak_live, rows, prog)), info
-    if len(rounds) >= 8 and last_total > 1.5 * mid_total + 2 * largest:
-        return E.Found("leak/keeps-growing", "heap total grew from %d (mid) to %d (last) under a stationary workload\nrows=%r\nprogram:\n%s"
-                       % (mid_total, last_total, rows, prog)), info
+    # one doubling is what a non-compacting collector may need once fragmentation bites (seen on the unchanged tree: 8 MB -> 16 MB
+    # in round 5 of 8 with 3 MB live, then flat); a leak keeps growing: two successive growth steps, or a tripling
+    if len(rounds) >= 8:
+        t1, t2 = rounds[len(rounds) // 3][1][0], rounds[(2 * len(rounds)) // 3][1][0]
+        if (last_total > 1.25 * t2 + largest and t2 > 1.25 * t1 + largest) or last_total > 3 * t1 + 2 * largest:
+            return E.Found("leak/keeps-growing", "heap total grew from %d (first third) over %d (second third) to %d (last round) under a stationary workload\nrows=%r\nprogram:\n%s"
+                           % (t1, t2, last_total, rows, prog)), info
     return None, info
 
 
